@@ -15,7 +15,14 @@ use quote::ToTokens;
 use syn::visit::{self, Visit};
 use syn::{Expr, Stmt, Token};
 
+thread_local! { static SOFT: std::cell::Cell<bool> = std::cell::Cell::new(false); }
+
+/// outside a BODY: the whole unit is undecided (exit 2).  Inside a BODY: only that function is (it is emitted as an
+/// assumed stub and reported in the map file), see `stubbed` below.
 fn die(msg: &str) -> ! {
+    if SOFT.with(|s| s.get()) {
+        std::panic::panic_any(msg.to_string());
+    }
     eprintln!("vextract: UNDECIDED: {}", msg);
     std::process::exit(2);
 }
@@ -850,6 +857,7 @@ fn split_arrow(s: &str) -> (String, String) {
 }
 
 fn main() {
+    std::panic::set_hook(Box::new(|_| {}));
     let args: Vec<String> = std::env::args().collect();
     let mut repo = "/repo".to_string();
     let mut tmpl = String::new();
@@ -881,6 +889,7 @@ fn main() {
     let mut notes: Vec<String> = vec![];
     let mut bodies: Vec<String> = vec![];
     let mut extracted_sites: Vec<String> = vec![];
+    let mut stubbed: Vec<String> = vec![];
 
     let mut ln = 0usize;
     while ln < lines.len() {
@@ -1080,7 +1089,13 @@ fn main() {
                 }
                 ln += 1;
             }
-            let src = files.entry(spec.file.clone()).or_insert_with(|| SourceFile::load(&repo, &spec.file));
+            let indent0 = line[..line.len() - t.len()].to_string();
+            files.entry(spec.file.clone()).or_insert_with(|| SourceFile::load(&repo, &spec.file));
+            let saved_text_len = out.text.len();
+            let saved_orig_len = out.origins.len();
+            SOFT.with(|s| s.set(true));
+            let res = std::panic::catch_unwind(std::panic::AssertUnwindSafe(|| {
+                let src = files.get(&spec.file).unwrap();
             let found = find_fn(&src.ast, &spec.func);
             if found.len() != 1 {
                 die(&format!("anchor lost: {} matches {} functions named `{}`", spec.file, found.len(), spec.func));
@@ -1220,6 +1235,22 @@ fn main() {
             bodies.push(format!("{}::{} ({}:{}-{}){}", spec.file, spec.func, spec.file, bl, el,
                 if spec.closure.is_some() || spec.lift.is_some() { format!(" [closure={:?} async={:?}]", spec.closure, spec.lift) } else { String::new() }));
             extracted_sites.push(format!("{}:{}:{}", spec.file, rs, re));
+            }));
+            SOFT.with(|s| s.set(false));
+            if let Err(e) = res {
+                let msg = e.downcast_ref::<String>().cloned().unwrap_or_else(|| "internal error".to_string());
+                out.text.truncate(saved_text_len);
+                out.origins.truncate(saved_orig_len);
+                out.push(&format!("{}{{ proof {{ assume(false); }} panic_shim() }} // STUBBED {}\n", indent0, spec.func), &format!("tmpl:{}", spec.tmpl_line));
+                stubbed.push(format!("{}::{}: {}", spec.file, spec.func, msg));
+                // the whole function counts as a region so that S-cover can still be evaluated
+                let src = files.get(&spec.file).unwrap();
+                let found = find_fn(&src.ast, &spec.func);
+                if found.len() == 1 {
+                    let (s0, e0) = src.range(found[0].block.span());
+                    extracted_sites.push(format!("{}:{}:{}", spec.file, s0, e0));
+                }
+            }
         } else {
             die(&format!("template line {}: unknown directive `{}`", ln + 1, d));
         }
@@ -1241,6 +1272,11 @@ fn main() {
     for (i, b) in extracted_sites.iter().enumerate() {
         if i > 0 { j.push(','); }
         let _ = write!(j, "\"{}\"", b);
+    }
+    j.push_str("],\n \"stubbed\": [");
+    for (i, b) in stubbed.iter().enumerate() {
+        if i > 0 { j.push(','); }
+        let _ = write!(j, "\"{}\"", b.replace('\\', "\\\\").replace('"', "\\\""));
     }
     j.push_str("],\n \"notes\": [");
     for (i, b) in notes.iter().enumerate() {
